@@ -1701,6 +1701,46 @@ Example gcache_acyclic_clean :
 Proof. vm_compute. reflexivity. Qed.
 
 (* ------------------------------------------------------------------ *)
+(* 4c. Marker names restart with every document                         *)
+(* ------------------------------------------------------------------ *)
+
+Lemma marker_call_any next k : snd (marker_call next k) = snd (marker_call marker_init k).
+Proof. reflexivity. Qed.
+
+Lemma marker_reuse h k :
+  run_reused marker_init marker_call h k = run_fresh marker_init marker_call k.
+Proof. unfold run_reused, run_fresh. apply marker_call_any. Qed.
+
+(* every document's names are 0, 1, ..., k-1 *)
+Lemma names_from_length s k : length (names_from s k) = k.
+Proof. revert s. induction k as [|k IH]; intros s; simpl; [reflexivity|]. rewrite IH. reflexivity. Qed.
+
+Lemma names_from_nth s k i : (i < k)%nat -> nth i (names_from s k) 0 = s + N.of_nat i.
+Proof.
+  revert s i. induction k as [|k IH]; intros s i Hi; [lia|].
+  destruct i as [|i]; simpl.
+  - lia.
+  - rewrite IH by lia. lia.
+Qed.
+
+Lemma marker_names_spec h k i : (i < N.to_nat k)%nat ->
+  nth i (run_reused marker_init marker_call h k) 0 = N.of_nat i.
+Proof.
+  intros Hi. rewrite marker_reuse. unfold run_fresh, marker_call. cbn [snd].
+  rewrite names_from_nth by exact Hi. lia.
+Qed.
+
+(* with one root iterator kept by the marshaler the second marked value is numbered on *)
+Lemma marker_noreset_refuted : exists h k,
+  run_reused marker_init marker_call_noreset h k <> run_fresh marker_init marker_call_noreset k.
+Proof. exists [1], 1. vm_compute. discriminate. Qed.
+
+Example marker_witness :
+  run_all marker_call marker_init [1; 0; 2; 1] = [[0]; []; [0; 1]; [0]] /\
+  run_all marker_call_noreset marker_init [1; 0; 2; 1] = [[0]; []; [1; 2]; [3]].
+Proof. vm_compute. split; reflexivity. Qed.
+
+(* ------------------------------------------------------------------ *)
 (* 6. Marshaler and unmarshaler as owners of their parts                *)
 (* ------------------------------------------------------------------ *)
 
